@@ -45,8 +45,11 @@ det = 0
 for k in sorted(results):
     v = results[k]
     own = k.split('-')[0]
-    hit = {p: r for p, r in v.items() if r and not str(r[0]).startswith('UNDECIDED')} if isinstance(v, dict) else {}
+    hit = {p: r for p, r in v.items() if p != 'error' and r and not str(r[0]).startswith('UNDECIDED')} if isinstance(v, dict) else {}
     if hit:
         det += 1
+    if isinstance(v, dict) and 'error' in v:
+        print('%-8s DOES NOT APPLY: %s' % (k, v['error'][:80]))
+        continue
     print('%-8s %s' % (k, ('DETECTED by ' + ', '.join('%s:%s' % (p, '/'.join(r)) for p, r in sorted(hit.items()))) if hit else ('missed' + (' ' + json.dumps(v) if v else ''))))
 print('%d of %d seeded changes detected' % (det, len(results)))
